@@ -607,6 +607,17 @@ def same_cell_name_in_two_libraries(ad, r, p=0.2, force=None):
         return False
     top = [x for x in cells if [x[0], x[1]['name']] == ad['top']][0]
     keep = top if (r.random() < 0.5 or force == 'top') else r.choice(cells)
+    if keep is top and r.random() < 0.6:
+        # a library of its own that nothing refers to, so that it may be declared before or after the top cell's library
+        libnames = set(l['name'] for l in ad['libraries'])
+        k = 0
+        while 'extra_lib%d' % k in libnames:
+            k += 1
+        name = top[1]['name'] if r.random() < 0.7 else top[1]['name'].swapcase()
+        ad['libraries'].append({'name': 'extra_lib%d' % k, 'definitions': [
+            {'name': name, 'ports': [{'name': 'other_p', 'direction': 'INOUT', 'width': r.choice([1, 2, 3]), 'base': 0, 'downto': True}],
+             'cables': [], 'instances': [], 'nets': []}]})
+        return True
     others = [x for x in cells if x[0] != keep[0] and x[1] is not top[1]]
     if not others:
         return False
